@@ -1,6 +1,9 @@
 #!/bin/sh
-# tools/sweep.sh TIER [PAR]: run the registered command of every property at the given tier, PAR at a time
+# tools/sweep.sh TIER [PAR] [PROPS...]: run the registered command of every (or the named) property at the given tier, PAR at a time
 cd /verif
 TIER=${1:-quick}; PAR=${2:-4}
+[ $# -ge 2 ] && shift 2 || shift $#
+PROPS="$@"
+[ -z "$PROPS" ] && PROPS=$(ls conf | sed 's/.json//')
 mkdir -p work/sweep_$TIER
-ls conf | sed 's/.json//' | xargs -P $PAR -I{} sh -c "/usr/bin/time -f '{} %es rc=%x' ./check {} --tier $TIER > work/sweep_$TIER/{}.out 2> work/sweep_$TIER/{}.time; tail -1 work/sweep_$TIER/{}.time"
+echo $PROPS | tr ' ' '\n' | xargs -P $PAR -I{} sh -c "/usr/bin/time -f '{} %es rc=%x' ./check {} --tier $TIER > work/sweep_$TIER/{}.out 2> work/sweep_$TIER/{}.time; tail -1 work/sweep_$TIER/{}.time"
